@@ -1265,7 +1265,7 @@ fn main() {
         let nocap = std::env::var("C06_NOCAP").is_ok();
         let wall = |q: u64, t: u64| if nocap { 100_000 } else { tier.pick(q, t) };
         if want("ac-wrapper") {
-            r.world(&Ac { variant: Variant::Empty }, &Bounds::new(tier.pick(5, 7), wall(20, 300)));
+            r.world(&Ac { variant: Variant::Empty }, &Bounds::new(tier.pick(5, 6), wall(20, 300)));
         }
         if want("ac-wrapper-seeded") {
             r.world(&Ac { variant: Variant::Seeded }, &Bounds::new(tier.pick(3, 5), wall(12, 200)));
